@@ -236,7 +236,7 @@ func c10Enumerate(tier string, yield func(any)) {
 				// the entity to be replaced holds a certificate but no private key (request-based / key stripped)
 				yield(&c10Case{Kind: "consent", Hier: hier, Toggles: []int{5}, Answer: a, Pre: 1})
 				yield(&c10Case{Kind: "consent", Hier: hier, Toggles: []int{}, Answer: a, Pre: 2})
-				for pre := 3; pre <= 6; pre++ {
+				for pre := 3; pre <= 7; pre++ {
 					yield(&c10Case{Kind: "consent", Hier: hier, Toggles: []int{}, Answer: a, Pre: pre})
 				}
 			}
@@ -462,7 +462,7 @@ func c10Consent(x *engine.Ctx, c *c10Case) {
 			w.Put(p, nb)
 		}
 	}
-	if c.Pre >= 3 {
+	if c.Pre >= 3 && c.Pre <= 6 {
 		// the file that is to be replaced holds its certificate in a layout other tools leave behind
 		root = d.Certs[len(d.Certs)-1]
 		p := ArtifactPath(root.Path)
@@ -492,11 +492,20 @@ func c10Consent(x *engine.Ctx, c *c10Case) {
 		}
 		w.PutAt(p, nb, w.Files[p].Tick)
 	}
-	root.Subject = "CN=Entity renamed, O=C10"
-	w.Put(root.Path, RenderCfg(root.Path, root.Tree()))
+	strat2 := drive.Default
+	if c.Pre == 7 {
+		// the root's artifact is lost; generate-missing is the only flag left on: the root is created and what it
+		// issued is replaced with it - replacing needs the user's consent under every flag set
+		root = d.Certs[0]
+		w.Remove(ArtifactPath(root.Path))
+		strat2 = db.UpdateMissing
+	} else {
+		root.Subject = "CN=Entity renamed, O=C10"
+		w.Put(root.Path, RenderCfg(root.Path, root.Tree()))
+	}
 	before := w.Clone()
 	ans := c10Answers[c.Answer]
-	res, err = drive.RunCLI(w, drive.Default, ans)
+	res, err = drive.RunCLI(w, strat2, ans)
 	if err != nil {
 		x.Cap("cli: " + err.Error())
 		return
@@ -611,7 +620,7 @@ func init() {
 	register(&engine.Check{
 		ID:          "C10",
 		Level:       "model_checking",
-		Rule:        "4 hierarchies (root; root+sub; 3-tier chain; root+2 subs; keys on P-224, brainpoolP256r1, P-384, brainpoolP384t1 by position) x toggle sets of size <=2 (thorough <=4 and all seven) over {profile, relative validity, absolute validity (current, not yet valid and expired-by-design periods by position), manipulations (version, signature value, key algorithm and key bits of the last entity), imported key, CSR-based leaf, nested directories + explicit aliases; plus a world where two configurations share an artifact file and worlds where every entity carries seven extensions with mixed-case names} x 16 flag sets without generate-all x 3 clock modes (tick per write / one tick per run / the run shares the tick of the last edit before it), 5 foreign files present: run, then run again with the same flags - from the fresh directory and (for the <=1-toggle worlds; all in thorough) after four histories: settled + edit of the root's subject, of the last entity's subject, of its extensions plus touching every config, deletion of its artifact. Second run: empty plan, nothing generated, empty write log, directory identical including mtimes. First run: changed paths = artifact paths of exactly the reported entities, no other path changed or created. The same run;run on the built binary in a native directory for every flag set on the <=1-toggle worlds and a diagonal of the rest; a root (RSA) and a subordinate with configured serials, absolute validity and existing keys: the root is edited (name and key kept), both are re-issued - the subordinate to the same bytes - and the next run under each of the 16 flag sets x 3 clock modes is a no-op; the binary on the 4 plain hierarchies x 16 flag sets with the last entity's artifact being a symbolic link (older than every file) to a key kept in another directory: run, then two more runs that must neither prompt nor change anything; consent: 9 stdin answers on 14 worlds with a pending replacement (the directory named as an absolute path; for y and n also relative, as ./dir/, as . from inside it, and through a symbolic link) (incl. replaced entities that hold a certificate but no private key: request-based, key stripped) (only `y` replaces, others leave the directory identical and exit 0, no prompt when nothing is replaced). states = worlds, transitions = runs, traces_validated = binary runs",
+		Rule:        "4 hierarchies (root; root+sub; 3-tier chain; root+2 subs; keys on P-224, brainpoolP256r1, P-384, brainpoolP384t1 by position) x toggle sets of size <=2 (thorough <=4 and all seven) over {profile, relative validity, absolute validity (current, not yet valid and expired-by-design periods by position), manipulations (version, signature value, key algorithm and key bits of the last entity), imported key, CSR-based leaf, nested directories + explicit aliases; plus a world where two configurations share an artifact file and worlds where every entity carries seven extensions with mixed-case names} x 16 flag sets without generate-all x 3 clock modes (tick per write / one tick per run / the run shares the tick of the last edit before it), 5 foreign files present: run, then run again with the same flags - from the fresh directory and (for the <=1-toggle worlds; all in thorough) after four histories: settled + edit of the root's subject, of the last entity's subject, of its extensions plus touching every config, deletion of its artifact. Second run: empty plan, nothing generated, empty write log, directory identical including mtimes. First run: changed paths = artifact paths of exactly the reported entities, no other path changed or created. The same run;run on the built binary in a native directory for every flag set on the <=1-toggle worlds and a diagonal of the rest; a root (RSA) and a subordinate with configured serials, absolute validity and existing keys: the root is edited (name and key kept), both are re-issued - the subordinate to the same bytes - and the next run under each of the 16 flag sets x 3 clock modes is a no-op; the binary on the 4 plain hierarchies x 16 flag sets with the last entity's artifact being a symbolic link (older than every file) to a key kept in another directory: run, then two more runs that must neither prompt nor change anything; consent: 9 stdin answers on 14 worlds with a pending replacement (the directory named as an absolute path; for y and n also relative, as ./dir/, as . from inside it, and through a symbolic link) (incl. replaced entities that hold a certificate but no private key: request-based, key stripped; and a lost root artifact with generate-missing as the only flag, where what the root issued is replaced along with it) (only `y` replaces, others leave the directory identical and exit 0, no prompt when nothing is replaced). states = worlds, transitions = runs, traces_validated = binary runs",
 		Bound:       map[string]string{"toggle set size": "quick<=2 thorough<=4 + all"},
 		Assumptions: []string{"answers `y` without newline and ` y ` are accepted by the code; the statement says `y`, so they are not demanded either way"},
 		Budget:      budgets(quickBudget, thoroughBudget),
